@@ -144,7 +144,7 @@ class Run:
             "wall_s": round(wall, 3),
             "violations": len(new),
         }
-        evdir = os.path.join(VERIF, "evidence")
+        evdir = os.environ.get("HGV_EVIDENCE_DIR") or os.path.join(VERIF, "evidence")
         os.makedirs(evdir, exist_ok=True)
         rc = 0
         out = sys.stdout
